@@ -29,22 +29,23 @@ import (
 )
 
 type scanProfile struct {
-	Check    []scanCfg // exhaustive checks (VIEW on, all invariants)
-	Export   []scanCfg // exported families: replayed at API level (all orders) and at CLI level (per graph)
-	MaxAPI   int       // cap on behaviours replayed (0 = all)
-	MaxCLIFromTLC int  // cap on TLC graphs run through the binary
-	NRandom  int       // Go-generated repositories
-	Gen      genParams
-	Fails    func(v verdict) []string // the predicates of this property that failed
-	MaxTraces int
-	Rule     string
-	Relational bool // C09: all orders of one graph must agree
-	Progress bool
+	Check         []scanCfg // exhaustive checks (VIEW on, all invariants)
+	Export        []scanCfg // exported families: replayed at API level (all orders) and at CLI level (per graph)
+	MaxAPI        int       // cap on behaviours replayed (0 = all)
+	MaxCLIFromTLC int       // cap on TLC graphs run through the binary
+	NRandom       int       // Go-generated repositories
+	Gen           genParams
+	Fails         func(v verdict) []string // the predicates of this property that failed
+	MaxTraces     int
+	Rule          string
+	Relational    bool // C09: all orders of one graph must agree
+	Progress      bool
 	// Expand turns one CLI case (a TLC-chosen graph) into variants (dates, layouts, root order);
 	// variants carry the same Group and must give identical numbers when RelationalCLI is set.
 	Expand        func(rng *rand.Rand, sc cases.ScanCase) []cases.ScanCase
 	RelationalCLI bool
 	Extra         []cases.ScanCase // further hand-shaped repositories (wide trees ...)
+	CrossFormat   bool             // C08: the witness of a metric is the same in JSON v1, JSON v2 and the table
 }
 
 var fieldsOf = map[string][]string{
@@ -112,6 +113,18 @@ func withExport(s scanCfg) scanCfg {
 // behaviourCase turns a TLC behaviour into an executable case.
 func behaviourCase(b *Behaviour, id string, api bool) (cases.ScanCase, bool) {
 	sc := cases.ScanCase{ID: id, G: b.G, Style: b.Style}
+	// names of 2 and 3 bytes are single multi-byte characters: lengths are bytes, not characters
+	sc.Names = map[int][]byte{}
+	for _, t := range b.G.Trees {
+		for _, e := range t {
+			switch {
+			case e.NL == 2 && e.N <= 26:
+				sc.Names[e.N] = []byte(string(rune(0xe0 + e.N))) // U+00E1.. : two bytes each
+			case e.NL == 3 && e.N <= 26:
+				sc.Names[e.N] = []byte(string(rune(0x20ac + e.N))) // U+20AD.. : three bytes each
+			}
+		}
+	}
 	ord := b.Ord
 	sc.Ord = &ord
 	anyExplicit := false
@@ -199,12 +212,12 @@ func renderDesc(toks [][]interface{}, sc *cases.ScanCase, hex map[string]string,
 }
 
 type scanRun struct {
-	c   *Ctx
-	env *scanEnv
-	p   scanProfile
-	jcs []map[string]interface{}          // judge cases
-	src map[string]map[string]interface{} // case id -> {mode, case}
-	traces map[string][]map[string]interface{}
+	c          *Ctx
+	env        *scanEnv
+	p          scanProfile
+	jcs        []map[string]interface{}          // judge cases
+	src        map[string]map[string]interface{} // case id -> {mode, case}
+	traces     map[string][]map[string]interface{}
 	outOfRange int
 }
 
@@ -479,7 +492,18 @@ func runScanProfile(c *Ctx, p scanProfile) {
 		cli = append(cli, genCase(rng, fmt.Sprintf("r%d", i+1), gp))
 	}
 	cli = append(cli, p.Extra...)
-	runs := env.parallelCLI(cli, cliOpt{Progress: p.Progress}, 16)
+	runs := env.parallelCLI(cli, cliOpt{Progress: p.Progress, Formats: p.CrossFormat}, 16)
+	if p.CrossFormat {
+		for _, r := range runs {
+			if r == nil || r.Exit != 0 {
+				continue
+			}
+			if why := crossFormatWitness(r); why != "" {
+				c.AddViolation(Violation{Predicate: why, Spec: "Output (one witness per metric in every format)", Kind: "scan",
+					Input: map[string]interface{}{"mode": "cli-formats", "case": r.Case}, Observed: map[string]interface{}{"why": why}})
+			}
+		}
+	}
 	nrun := 0
 	for i, r := range runs {
 		if r == nil {
@@ -491,7 +515,7 @@ func runScanProfile(c *Ctx, p scanProfile) {
 		if strings.HasPrefix(cli[i].ID, "r") && i%10 == 0 {
 			c.Sample(map[string]interface{}{"kind": "generated repository scanned by the binary", "id": cli[i].ID,
 				"objects": map[string]int{"blobs": len(r.G.Blobs), "trees": len(r.G.Trees), "commits": len(r.G.Commits), "tags": len(r.G.Tags)},
-				"roots": r.Case.Roots, "args": r.Args, "layout": cli[i].Layout, "noise": cli[i].Noise})
+				"roots":   r.Case.Roots, "args": r.Args, "layout": cli[i].Layout, "noise": cli[i].Noise})
 		}
 	}
 	if p.RelationalCLI {
@@ -586,8 +610,8 @@ func (s *scanRun) judgeAndValidate() {
 func replayScan(c *Ctx, raw json.RawMessage) bool {
 	var rp struct {
 		Input struct {
-			Mode string          `json:"mode"`
-			Case cases.ScanCase  `json:"case"`
+			Mode string         `json:"mode"`
+			Case cases.ScanCase `json:"case"`
 		} `json:"input"`
 		Predicate string `json:"predicate"`
 	}
@@ -608,11 +632,14 @@ func replayScan(c *Ctx, raw json.RawMessage) bool {
 		o = apiObserved(rp.Input.Case, &rs[0])
 	} else {
 		prog := rp.Input.Mode == "cli-progress"
-		r, err := env.runCLI(rp.Input.Case, cliOpt{Progress: prog})
+		r, err := env.runCLI(rp.Input.Case, cliOpt{Progress: prog, Formats: rp.Input.Mode == "cli-formats"})
 		if err != nil {
 			Infra("replay: %v", err)
 		}
 		o = &r.observed
+		if rp.Input.Mode == "cli-formats" && strings.HasPrefix(rp.Predicate, "witness_differs") {
+			return crossFormatWitness(r) != ""
+		}
 		if prog && (rp.Predicate == "stdout_changed_by_progress" || rp.Predicate == "progress_with_no_progress") {
 			r2, err := env.runCLI(rp.Input.Case, cliOpt{Progress: false, NoTrace: true})
 			if err != nil {
@@ -672,4 +699,60 @@ var scanFails = map[string]func(v verdict) []string{}
 
 func init() {
 	replays["scan"] = replayScan
+}
+
+// crossFormatWitness: for every metric with a witness, JSON v2 (objectName / objectDescription) and the
+// verbose table (footnote text of the row's citation) name the same object as JSON v1.
+func crossFormatWitness(r *cliRun) string {
+	var v2 map[string]struct {
+		ObjectName        string `json:"objectName"`
+		ObjectDescription string `json:"objectDescription"`
+	}
+	if json.Unmarshal([]byte(r.JSONv2), &v2) != nil {
+		return "witness_differs:json_v2_invalid"
+	}
+	pt := parseTable(r.Table)
+	foot := map[string]string{}
+	for _, row := range pt.Rows {
+		if f := fieldOfRow(row); f != "" && !row.Header && row.Citation != "" {
+			var n int
+			fmt.Sscanf(row.Citation, "[%d]", &n)
+			if n >= 1 && n <= len(pt.Footnotes) {
+				foot[f] = pt.Footnotes[n-1]
+			}
+		}
+	}
+	for _, it := range outItems {
+		if !it.Wit {
+			continue
+		}
+		var v1 string
+		json.Unmarshal(r.JSON[model.WitnessKeys[it.Field]], &v1)
+		want := v1
+		item := v2[it.Sym]
+		got2 := item.ObjectName
+		if item.ObjectDescription != "" {
+			got2 += " (" + item.ObjectDescription + ")"
+		}
+		if r.Case.Style == "hash" && len(v1) >= 40 {
+			want = v1[:40]
+		}
+		if r.Case.Style != "none" {
+			// JSON v2 always carries name and description; compare the object ids
+			if (len(v1) >= 40) != (len(got2) >= 40) || (len(v1) >= 40 && v1[:40] != got2[:40]) {
+				return "witness_differs_between_json_v1_and_v2:" + it.Field
+			}
+			if r.Case.Style == "full" && len(v1) >= 40 && got2 != v1 {
+				return "witness_description_differs_between_json_v1_and_v2:" + it.Field
+			}
+		}
+		if ft, ok := foot[it.Field]; ok {
+			if ft != want {
+				return "witness_differs_between_json_v1_and_table:" + it.Field
+			}
+		} else if want != "" && r.Case.Style != "none" {
+			return "witness_missing_in_table:" + it.Field
+		}
+	}
+	return ""
 }
